@@ -1,3 +1,12 @@
+//! vf-wasm: the WASM sandbox checks — validation (C45), instrumentation (C46), host memory access
+//! (C47) — and the WAT generator R8 (`watgen`).
+
+pub mod c45;
+pub mod inspect;
+pub mod watgen;
+
+pub use c45::c45_bytes_case;
+
 pub fn checks() -> Vec<vf_core::Check> {
-    vec![]
+    vec![c45::check()]
 }
